@@ -522,6 +522,8 @@ type Closure struct {
 	Sig   *types.Signature
 	Lit   interface{} // *ast.FuncLit with captured exec env
 	Apply func(args []Value) Value
+	// Opaque: a function value whose body is not modelled and may have effects
+	Opaque bool
 }
 
 type State struct {
